@@ -181,6 +181,9 @@ func H_C06_failed_add() {
 		err = h.AddWithID(3, vec, text, meta)
 		vTag("failed-add-on-live-id")
 	default:
+		// automatic ids come from a package-level counter: start it well above the explicit ids 3, 5, 9 used here
+		// (a native replay process has run other harnesses before, the counter may sit anywhere)
+		nodeIDCounter = 1000
 		failedID, err = h.Add(vec, text, meta)
 	}
 	vAssert(err != nil, "injected-failure-reported")
